@@ -272,15 +272,230 @@ def run(ctx):
             if L.is_const() and L.c >= 64:
                 bad = None      # a list for every bit of a 64-bit mask word
             if bad is None:
-                ctx.add(RULE, f, 'lists-cover-domain', 'ok', 'number of lists = %s; every endpoint position the mask builders compute is, for the domain maximum, at most that minus one (same helpers, same endpoint)' % L, PROPS, line, nontrivial=True)
+                ctx.add(RULE, f, 'lists-cover-domain', 'ok', 'number of lists = %s; every endpoint position the mask builders compute is, for the domain maximum, at most that minus one (same helpers, same endpoint)' % L, PROPS + ['C14'], line, nontrivial=True)
             else:
                 mf, t, a, d = bad
                 ctx.add(RULE, f, 'lists-cover-domain', 'violation',
                         'the constructor allocates %s lists, but %s hands position %s to %s for an endpoint equal to the domain maximum: the difference (%s) is not a non-negative constant, so allocation and addressing do not use the same mapping of the same endpoint (a mask bit can name a list that does not exist: unchecked access out of bounds)' % (L, mf.name, a, t.name, d),
-                        PROPS, line, {'lists': str(L), 'position': str(a), 'difference': str(d)})
-    ctx.stat(RULE, mask_builders=len(mask_fns), endpoint_positions=len(positions), constructors=n_ctor)
+                        PROPS + ['C14'], line, {'lists': str(L), 'position': str(a), 'difference': str(d)})
+    # ---- the exponent: the shift is taken from the bit length of a value that is at least the largest offset ----------------
+    # position(v) = (v - min) >> scale with scale = bitlen(X) - K.  Since X < 2^bitlen(X), X >= max - min gives
+    # position(max) < 2^K: the domain maximum maps below the bucket count the mask builders assume.  Decided here: X, as a
+    # linear form of the constructor's arguments, is (max - min) + c with c >= 0.  (That K is the builders' bucket exponent and
+    # that positions are monotone is arithmetic: C14, assumed.)
+    n_exp = 0
+    layout_fields = {}
+    done_t = set()
+    for f, c, t in ctor_sites:
+        if t.path in done_t:
+            continue
+        done_t.add(t.path)
+        which_max = None
+        for i, a in enumerate(c.args):
+            if lin(prog, f, a, {}).key() == max_field.key():
+                which_max = i + 1
+        if which_max is None:
+            continue
+        from ssa import walk
+        for rv in t.body.ret_val.values():
+            for x in walk(rv):
+                if not (x.kind == 'agg' and (x.extra.get('path') or '').split('<')[0] == layout_ty):
+                    continue
+                names = (x.extra.get('variant') or {}).get('fields') or []
+                vals = dict(zip(names, x.args))
+                min_param = None
+                for nm, a in vals.items():
+                    la = lin(prog, t, a, {})
+                    if len(la.t) == 1 and la.c == 0 and list(la.t)[0][0] == 'param' and list(la.t)[0][1] != which_max and list(la.t.values())[0] == 1:
+                        min_param = list(la.t)[0][1]
+                others = [nm for nm, a in vals.items() if lin(prog, t, a, {}).key() not in (atom(('param', which_max)).key(), atom(('param', min_param)).key() if min_param else None)]
+                if min_param is None or len(others) != 1:
+                    continue
+                n_exp += 1
+                layout_fields['scale'] = others[0]
+                for nm, a in vals.items():
+                    if lin(prog, t, a, {}).key() == atom(('param', min_param)).key():
+                        layout_fields['min'] = nm
+                sc = strip(vals[others[0]])
+                line = t.line
+                X, why = exponent_source(prog, t, sc)
+                if X is None:
+                    ctx.add(RULE, t, 'exponent-covers-domain', 'violation', 'undecided: the shift amount stored in the layout is not of the form bitlen(X) - K (%s): cannot relate it to the width of the domain' % why, PROPS + ['C14'], line)
+                    continue
+                lx = lin(prog, t, X, {})
+                d = lx.add(atom(('param', which_max)), -1).add(atom(('param', min_param)), 1)
+                if d.is_const() and d.c >= 0:
+                    ctx.add(RULE, t, 'exponent-covers-domain', 'ok', 'the shift is bitlen(X) - K with X = %s = (max - min) + %d >= the largest offset: the domain maximum maps below 2^K' % (lx, d.c), PROPS + ['C14'], line)
+                    # C14's own clauses on the same skeleton: the width is the smallest one (X is exactly the largest offset), and
+                    # construction is refused exactly when bitlen(X) < K, i.e. (K = 5) for 16 points or fewer
+                    if d.c == 0:
+                        ctx.add(RULE, t, 'width-is-minimal', 'ok', 'X is exactly max - min: bitlen(max - min) - K is the smallest shift under which the largest offset stays below 2^K', ['C14'], line)
+                    else:
+                        ctx.add(RULE, t, 'width-is-minimal', 'violation', 'X = (max - min) + %d: the shift can be one larger than needed, the buckets are then twice as wide as the smallest width that covers the domain' % d.c, ['C14'], line)
+                    why_t = refusal_threshold(prog, t, sc, lx, which_max, min_param)
+                    ctx.add(RULE, t, 'refusal-threshold', 'violation' if why_t else 'ok', why_t or 'construction fails exactly on the paths on which bitlen(max - min) < K (or the point count is below a constant <= 2^(K-1) + 1) and succeeds only where bitlen(max - min) >= K: with K = 5, refused for 16 points or fewer, built for 17 or more', ['C14'], line)
+                else:
+                    ctx.add(RULE, t, 'exponent-covers-domain', 'violation',
+                            'the shift is bitlen(X) - K with X = %s, which is not (max - min) plus a non-negative constant (difference %s): for some domains the largest offset needs one bit more than X, so the domain maximum maps to bucket 2^K - a position the mask builders and the list vector do not have' % (lx, d), PROPS + ['C14'], line,
+                            {'X': str(lx), 'difference': str(d)})
+    # ---- the position function narrows only what it has shifted ---------------------------------------------------------------
+    n_pos = 0
+    WIDTH = {'u8': 8, 'i8': 8, 'u16': 16, 'i16': 16, 'u32': 32, 'i32': 32, 'u64': 64, 'i64': 64, 'usize': 64, 'isize': 64}
+    for f in prog.fns.values():
+        if f.self_adt != layout_ty or not f.info.get('mir') or f.is_closure:
+            continue
+        b = f.body
+        shifts = [v for v in b._vals if v.kind == 'bin' and v.args[0].replace('Unchecked', '') == 'Shr']
+        if not shifts or b.locals[0]['ty'] not in ('u32', 'usize', 'u64', 'u16', 'u8'):
+            continue
+        n_pos += 1
+        bad = None
+        for v in b._vals:
+            if v.kind != 'cast':
+                continue
+            src = v.args[0]
+            sw, tw = WIDTH.get((src.ty or '').strip()), WIDTH.get((v.ty or '').strip())
+            if sw and tw and tw < sw:
+                inner = src
+                while inner is not None and inner.kind in ('load', 'ref') and not inner.fields():
+                    inner = inner.args[0]
+                if not (inner is not None and inner.kind == 'bin' and inner.args[0].replace('Unchecked', '') == 'Shr') and not (inner is not None and inner.kind == 'const'):
+                    bad = (v, src)
+        # the position itself: (value - minimum) >> shift, nothing else (monotone in the coordinate, 0 at the domain minimum)
+        if 'min' in layout_fields and 'scale' in layout_fields and b.arg_count == 2 and len(b.ret_val) >= 1:
+            want = atom(('op', 'Shr', atom(('param', 2)).add(atom(('field', layout_fields['min'])), -1).key(), atom(('field', layout_fields['scale'])).key()))
+            forms = {lin(prog, f, rv, {1: None}).key() for rv in b.ret_val.values()}
+            if forms == {want.key()}:
+                ctx.add(RULE, f, 'position-form', 'ok', 'position(v) = (v - %s) >> %s: monotone in v, 0 at the domain minimum' % (layout_fields['min'], layout_fields['scale']), ['C14'], f.line)
+            else:
+                ctx.add(RULE, f, 'position-form', 'violation', 'the position function does not compute (v - %s) >> %s (it computes %s): the coordinate-to-bucket mapping is not the monotone shift of the offset from the domain minimum' % (
+                    layout_fields['min'], layout_fields['scale'], '; '.join(lin_str(k) for k in sorted(forms, key=str))), ['C14'], f.line)
+        if bad:
+            ctx.add(RULE, f, 'narrow-after-shift', 'violation', 'the coordinate offset is narrowed to %s before it is shifted (%s): offsets of 2^%d and more lose their high bits, so distant coordinates share buckets and the position bound no longer follows from the shift' % (bad[0].ty, show(bad[1], 3), WIDTH.get(bad[0].ty, 32)), PROPS + ['C14'], f.line)
+        else:
+            ctx.add(RULE, f, 'narrow-after-shift', 'ok', 'the offset is shifted at full width; only the shifted position is narrowed', PROPS + ['C14'], f.line)
+    ctx.stat(RULE, mask_builders=len(mask_fns), endpoint_positions=len(positions), constructors=n_ctor, exponent_sites=n_exp, position_functions=n_pos)
+    if n_exp < 1:
+        ctx.anchor_missing(RULE, 'layout constructor with the shift exponent (aggregate of minimum, maximum and shift)', PROPS, n_exp, 1)
+    if n_pos < 1:
+        ctx.anchor_missing(RULE, 'position function of the layout (shift of the coordinate offset)', PROPS, n_pos, 1)
     if n_ctor < 1:
         ctx.anchor_missing(RULE, 'constructor of the segment tree (aggregate with the layout and the list vector)', PROPS, n_ctor, 1)
+
+
+def refusal_threshold(prog, t, sc, lx, which_max, min_param):
+    """None if the constructor returns None exactly under bitlen(X) < K (or a small-domain guard) and Some only under >=; else why"""
+    from rules.bypass import bypass_paths
+    from rules.gate import edge_truth
+    from evalrel import resolve_phi
+    b = t.body
+
+    def unov(v):
+        v = strip(v)
+        while v is not None and v.kind == 'load' and v.fields() in (('0',), (0,)) and strip(v.args[0]).kind == 'bin':
+            v = strip(v.args[0])
+        while v is not None and v.kind == 'cast':
+            v = strip(v.args[0])
+        return v
+    s0 = unov(sc)
+    if s0.kind == 'bin':
+        P, K = unov(s0.args[1]), unov(s0.args[2])
+    else:
+        P, K = unov(s0.args[0]), unov(s0.args[1])
+    if K.kind != 'const' or not isinstance(K.args[0], int):
+        return 'undecided: K is not a constant'
+    Kv = K.args[0]
+    if Kv != 5:
+        return 'K = %d: the layout maps the domain onto 2^%d buckets, the property speaks of 32' % (Kv, Kv)
+
+    def classify(blk, succ):
+        """'lt' : this edge establishes P < K;  'ge': P >= K;  'small': point count below a constant <= 2^(K-1)+1; None"""
+        d = b.switch_discr.get(blk)
+        if d is None:
+            return None
+        d = strip(d)
+        tr = edge_truth(b.mir['blocks'][blk]['term'], succ)
+        if tr is None or d.kind != 'bin' or d.args[0] not in ('Lt', 'Le', 'Gt', 'Ge'):
+            return None
+        x, y = unov(d.args[1]), unov(d.args[2])
+        op = d.args[0]
+        if not tr:
+            op = {'Lt': 'Ge', 'Le': 'Gt', 'Gt': 'Le', 'Ge': 'Lt'}[op]
+        # normalise to  x op y
+        def same(a, b2):
+            return a is b2 or (a.kind == b2.kind == 'const' and a.args[0] == b2.args[0])
+        if same(x, P) and same(y, K):
+            return {'Lt': 'lt', 'Ge': 'ge'}.get(op)
+        if same(y, P) and same(x, K):
+            return {'Gt': 'lt', 'Le': 'ge'}.get(op)
+        # point count guard:  len < c  /  len <= c
+        for a, c_, o in ((x, y, op), (y, x, {'Lt': 'Gt', 'Le': 'Ge', 'Gt': 'Lt', 'Ge': 'Le'}[op])):
+            if c_.kind == 'const' and isinstance(c_.args[0], int):
+                la = lin(prog, t, a, {})
+                dd = la.add(atom(('param', which_max)), -1).add(atom(('param', min_param)), 1)
+                if dd.is_const():
+                    # a = (max - min) + dd.c ; points = (max - min) + 1
+                    pts_bound = None
+                    if o == 'Lt':
+                        pts_bound = c_.args[0] - dd.c + 1 - 1      # points - 1 + dd.c < c  ->  points <= c - dd.c
+                    elif o == 'Le':
+                        pts_bound = c_.args[0] - dd.c + 1
+                    if pts_bound is not None and pts_bound <= 16:
+                        return 'small'
+        return None
+    for ret in b.cfg.returns:
+        paths = bypass_paths(t, set(), ret)
+        if paths is None:
+            return 'undecided: cannot enumerate the paths of the constructor'
+        for pth in paths:
+            edges = set(zip(pth, pth[1:]))
+            kinds = {classify(x, y) for x, y in edges} - {None}
+            vals = resolve_phi(b.ret_val[ret], edges, {})
+            for rv in vals:
+                rv = strip(rv)
+                vn = (rv.extra.get('variant') or {}).get('name') if rv is not None and rv.kind == 'agg' else None
+                if vn == 'None':
+                    if not (kinds & {'lt', 'small'}):
+                        return 'a path refuses construction (returns None) without having established bitlen(max - min) < K or a point count of at most 16: some domain with more than 16 points is refused'
+                elif vn == 'Some':
+                    if 'ge' not in kinds:
+                        return 'a path builds the layout (returns Some) without having established bitlen(max - min) >= K: some domain with 16 points or fewer gets a degenerate tree'
+                else:
+                    return 'undecided: the constructor returns %s' % show(rv, 3)
+    return None
+
+
+def exponent_source(prog, fn, sc):
+    """sc = bitlen(X) - K  with bitlen(X) = ilog2(X) + 1 | BITS - leading_zeros(X): returns (X, '') or (None, why)"""
+    def unov(v):
+        v = strip(v)
+        while v is not None and v.kind == 'load' and v.fields() in (('0',), (0,)) and strip(v.args[0]).kind == 'bin':
+            v = strip(v.args[0])
+        while v is not None and v.kind == 'cast':
+            v = strip(v.args[0])
+        return v
+    sc = unov(sc)
+    if sc is None or sc.kind != 'bin' or not sc.args[0].startswith('Sub'):
+        if sc is not None and sc.kind == 'call' and sc.callee_name() in ('saturating_sub', 'wrapping_sub', 'checked_sub') and len(sc.args) == 2:
+            P, K = unov(sc.args[0]), unov(sc.args[1])
+        else:
+            return None, show(sc, 3) if sc is not None else '?'
+    else:
+        P, K = unov(sc.args[1]), unov(sc.args[2])
+    if K is None or K.kind != 'const':
+        return None, 'the subtrahend %s is not a constant' % show(K, 2)
+    # P = ilog2(X) + 1
+    if P.kind == 'bin' and P.args[0].startswith('Add'):
+        a, b2 = unov(P.args[1]), unov(P.args[2])
+        for x, y in ((a, b2), (b2, a)):
+            if x.kind == 'call' and x.callee_name() in ('ilog2', 'checked_ilog2') and y.kind == 'const' and y.args[0] == 1:
+                return x.args[0], ''
+    # P = BITS - leading_zeros(X)
+    if P.kind == 'bin' and P.args[0].startswith('Sub'):
+        a, b2 = unov(P.args[1]), unov(P.args[2])
+        if a.kind == 'const' and a.args[0] in (32, 64) and b2.kind == 'call' and b2.callee_name() == 'leading_zeros':
+            return b2.args[0], ''
+    return None, 'the minuend %s is neither ilog2(X) + 1 nor BITS - leading_zeros(X)' % show(P, 3)
 
 
 def vec_len(prog, f, vec):
